@@ -2,36 +2,35 @@
 (* Trace validation of the real protocol matchers and of SelectStreamFactoryProtocol against Detect (C07).
      drun{truth,protos,total}   a valid stream of protocol `truth`, `total` bytes; protos = registered protocols
      match{m,n,res}             verdict of matcher m alone on the first n bytes: again | ok | fail
-     select{n,res,total}        answer of the real selection over all registered protocols on the first n bytes:
-                                again | fail | <protocol name> *)
-EXTENDS Detect, VTrace, Sequences
+     select{n,res,total[,scope]} answer of the real selection on the first n bytes over the ordered list `scope`
+                                (absent: Auto, all registered protocols): again | fail | <protocol name> *)
+EXTENDS Detect, VTrace
 
 VARIABLE last     \* last verdict of every matcher
 tvars == <<vars, last, l>>
 
-TraceInit == /\ l = 1 /\ truth = "" /\ d = <<>> /\ fed = 0 /\ chosen = "none" /\ last = <<>>
-
-ToSet(s) == { s[i] : i \in 1..Len(s) }
+TraceInit == /\ l = 1 /\ truth = "" /\ d = <<>> /\ fed = 0 /\ chosen = "none" /\ last = <<>> /\ scope = <<>>
 
 TRun == /\ IsEvent("drun")
         /\ truth' = Ev.truth /\ last' = [m \in ToSet(Ev.protos) |-> "again"]
-        /\ fed' = 0 /\ chosen' = "none" /\ UNCHANGED d
+        /\ fed' = 0 /\ chosen' = "none" /\ UNCHANGED <<d, scope>>
 
 TMatch == /\ IsEvent("match")
           /\ Ev.m \in DOMAIN last
           /\ Expect(last[Ev.m] = "again" \/ Ev.res = last[Ev.m], "matcher-not-prefix-monotone")
           /\ Expect(Ev.res = "ok" => Ev.m = truth, "second-matcher-succeeds")
           /\ last' = [last EXCEPT ![Ev.m] = Ev.res]
-          /\ fed' = Ev.n /\ UNCHANGED <<truth, d, chosen>>
+          /\ fed' = Ev.n /\ UNCHANGED <<truth, d, chosen, scope>>
 
 TSelect == /\ IsEvent("select")
-           /\ Expect(Ev.res \in SelectSetOf(last), "selection-rule")
+           /\ LET listed == IF Has(Ev, "scope") THEN ToSet(Ev.scope) ELSE DOMAIN last IN   \* no scope: Auto
+                Expect(Ev.res \in SelectSetOf([m \in listed |-> last[m]]), "selection-rule")
            /\ Expect(Ev.res # "fail", "failed-on-prefix-of-valid-stream")
            /\ Expect(Ev.res \in {"again", "fail", truth}, "wrong-protocol")
            /\ Expect(Ev.n < Ev.total \/ Ev.res # "again", "undecided-on-complete-input")
            /\ Expect(chosen = "none" \/ Ev.res = chosen, "selection-changed")
-           /\ chosen' = IF Ev.res = "again" THEN chosen ELSE Ev.res
-           /\ UNCHANGED <<truth, d, fed, last>>
+           /\ chosen' = IF Ev.res \in {"again", "fail"} THEN chosen ELSE Ev.res
+           /\ UNCHANGED <<truth, d, fed, last, scope>>
 
 TraceNext == TRun \/ TMatch \/ TSelect
 TraceSpec == TraceInit /\ [][TraceNext]_tvars
